@@ -304,7 +304,12 @@ def parse_value(ty, s, i=0):
         sty, p = parse_type(inner, 0)
         sv, _ = parse_value(sty, inner[:k], p)
         dty, _ = parse_type(inner[k+4:], 0)
+        if m.group(1) == 'inttoptr' and getattr(sv, 'ptr', None):
+            return Val(ty, '((%s)%s)' % (ctype(dty), sv.ptr)), j+1
         ce = cast_expr(m.group(1), sv, dty)
+        if m.group(1) == 'ptrtoint':
+            v_ = Val(ty, ce); v_.ptr = sv.c
+            return v_, j+1
         if m.group(1) == 'bitcast' and sv.c in PTRINFO: PTRINFO[ce] = PTRINFO[sv.c]
         return Val(ty, ce), j+1
     m = re.compile(r'(add|sub|and|or|xor|mul|shl|lshr)\s*(nuw\s+|nsw\s+)*\(').match(s, i)
@@ -313,6 +318,14 @@ def parse_value(ty, s, i=0):
         a, b = split_top(s[m.end():j])
         aty, p = parse_type(a); av, _ = parse_value(aty, a, p)
         bty, p = parse_type(b); bv, _ = parse_value(bty, b, p)
+        if m.group(1) in ('or', 'and') and getattr(av, 'ptr', None) and const_idx(bv) in (1, -2):
+            k_ = const_idx(bv)
+            mac = {('or', 1): 'LL2C_PTR_SETLOW', ('and', -2): 'LL2C_PTR_CLEARLOW'}.get((m.group(1), k_))
+            if mac:
+                v_ = Val(ty, '((uint64_t)(uintptr_t)%s(%s))' % (mac, av.ptr)); v_.ptr = '%s(%s)' % (mac, av.ptr)
+                return v_, j+1
+            if m.group(1) == 'and' and k_ == 1:
+                return Val(ty, 'LL2C_PTR_LOWBIT(%s)' % av.ptr), j+1
         op = {'add':'+','sub':'-','and':'&','or':'|','xor':'^','mul':'*','shl':'<<','lshr':'>>'}[m.group(1)]
         return Val(ty, '((%s)(%s %s %s))' % (ctype(ty), av.c, op, bv.c)), j+1
     if s[i] == '{' or s.startswith('<{', i):
@@ -380,6 +393,8 @@ def elem_ptr_type(t):
         return '%s(*)%s' % (ctype(e), dims), True
     return ctype(t) + '*', False
 
+PTRISH = set()  # local i64 vars that flow into an inttoptr in the current function
+PTRINT = {}    # local i64 var -> pointer C expr it was derived from (ptrtoint), for tag-bit idioms
 PTRINFO = {}   # C expr string -> (root C expr, root LLVM type, constant byte offset): statically known typed origin of a pointer
 
 def const_idx(v):
@@ -625,6 +640,8 @@ def main():
     print('\n'.join(out_fn))
 
 LIB_RENAME = {}
+import os
+PTR_WORD_COPY = os.environ.get('LL2C_PTRWORD', '1') == '1'
 
 # environment functions the TU only declares: contract stubs (listed in evidence assumptions)
 def stub_body(name, fty):
@@ -762,6 +779,12 @@ ICMP = {'eq':'==','ne':'!=','ugt':'>','uge':'>=','ult':'<','ule':'<=','sgt':'>',
 
 def translate_fn(fname, rty, ptys, pnames, byval, body):
     for k in [k for k in PTRINFO if k.startswith('v_')]: del PTRINFO[k]
+    PTRINT.clear()
+    PTRISH.clear()
+    txt = '\n'.join(body)
+    for m_ in re.finditer(r'inttoptr i64 (%[-A-Za-z0-9_.$]+) to', txt): PTRISH.add(local_name(m_.group(1)))
+    for m_ in re.finditer(r'(%[-A-Za-z0-9_.$]+) = and i64 (%[-A-Za-z0-9_.$]+), -2', txt):
+        if local_name(m_.group(1)) in PTRISH: PTRISH.add(local_name(m_.group(2)))
     cn = global_name(fname)
     out = []
     decls = collections.OrderedDict()   # cname -> ctype decl
@@ -903,6 +926,26 @@ def translate_ins(s, bl, decls, goto, fname):
         a, p = parse_value(ty, rest, p); assert rest[p] == ','
         b, p = parse_value(ty, rest, p+1)
         n = ty.n
+        PTRINT.pop(dst, None)
+        if n == 64 and op in ('and', 'or') and not (a.c in PTRINT or b.c in PTRINT):
+            # value of unknown origin that this function later turns into a pointer (member-function pointer
+            # loaded from a functor, tagged vtable pointer): treat it as a pointer value for the tag-bit idioms
+            for pv_ in (a, b):
+                if pv_.c in PTRISH: PTRINT[pv_.c] = '((char*)(uintptr_t)%s)' % pv_.c
+        if n == 64 and op in ('and', 'or') and (a.c in PTRINT or b.c in PTRINT):
+            # tag-bit manipulation of a pointer value (boost::function vtable pointer, member-function pointers):
+            # keep it pointer arithmetic so that CBMC's constant propagation survives (assumes even object base addresses)
+            pv, cv = (a, b) if a.c in PTRINT else (b, a)
+            k = const_idx(cv)
+            src = PTRINT[pv.c]
+            if op == 'and' and k == 1:
+                return setd(ty, 'LL2C_PTR_LOWBIT(%s)' % src)
+            if op == 'and' and k == -2:
+                PTRINT[dst] = 'LL2C_PTR_CLEARLOW(%s)' % src
+                return setd(ty, '((uint64_t)(uintptr_t)LL2C_PTR_CLEARLOW(%s))' % src)
+            if op == 'or' and k == 1:
+                PTRINT[dst] = 'LL2C_PTR_SETLOW(%s)' % src
+                return setd(ty, '((uint64_t)(uintptr_t)LL2C_PTR_SETLOW(%s))' % src)
         if op in BINOPS:
             e = '(%s)(%s %s %s)' % (cint(n), a.c, BINOPS[op], b.c)
         elif op == 'ashr':
@@ -929,6 +972,11 @@ def translate_ins(s, bl, decls, goto, fname):
         k = rest.rindex(' to ')
         sv, _ = parse_typed_value(rest[:k])
         dty, _ = parse_type(rest[k+4:])
+        if op == 'ptrtoint' and dty.n == 64: PTRINT[dst] = sv.c
+        else: PTRINT.pop(dst, None)
+        if op == 'inttoptr' and sv.c in PTRINT:
+            PTRINFO.pop(dst, None)
+            return setd(dty, '((%s)%s)' % (ctype(dty), PTRINT[sv.c]))
         if op == 'bitcast' and sv.c in PTRINFO: PTRINFO[dst] = PTRINFO[sv.c]
         elif op == 'bitcast' and is_ptr(sv.ty) and isinstance(sv.ty.to, (TStruct, TArr)) and not (isinstance(sv.ty.to, TStruct) and (sv.ty.to.fields is None or sv.ty.to.opaque)):
             PTRINFO[dst] = (sv.c, sv.ty.to, 0)
@@ -1002,8 +1050,11 @@ def translate_call(s, dst, decls, goto, bl):
             while off < nbytes:
                 for w in (8, 4, 2, 1):
                     if nbytes - off >= w: chunks.append((off, w)); off += w; break
-            ld = ' '.join('uint%d_t t%d_ = *(uint%d_t*)((char*)%s + %d);' % (w*8, k, w*8, args[1].c, o) for k, (o, w) in enumerate(chunks))
-            st = ' '.join('*(uint%d_t*)((char*)%s + %d) = t%d_;' % (w*8, args[0].c, o, k) for k, (o, w) in enumerate(chunks))
+            # 8-byte words are copied as pointer-typed values so that pointers stored in untyped
+            # (heap / byte-array) objects keep their provenance for CBMC's constant propagation
+            def cty(w): return 'char*' if (w == 8 and PTR_WORD_COPY) else 'uint%d_t' % (w*8)
+            ld = ' '.join('%s t%d_ = *(%s*)((char*)%s + %d);' % (cty(w), k, cty(w), args[1].c, o) for k, (o, w) in enumerate(chunks))
+            st = ' '.join('*(%s*)((char*)%s + %d) = t%d_;' % (cty(w), args[0].c, o, k) for k, (o, w) in enumerate(chunks))
             return ['{ %s %s }' % (ld, st)]
         elif n.startswith('llvm.memcpy'): call = 'memcpy((char*)%s, (char*)%s, %s)' % (args[0].c, args[1].c, args[2].c)
         elif n.startswith('llvm.memmove'): call = 'memmove((char*)%s, (char*)%s, %s)' % (args[0].c, args[1].c, args[2].c)
